@@ -197,7 +197,32 @@ def gen_c11(rng, i):
     return g.history("c11-%d" % i)
 
 
+def gen_c12_revive(rng, i):
+    """a ref in the bottom table, updated above it, then replaced by one of its children in a legal transaction (delete a, create
+    a/b); then the tables ABOVE the bottom one are compacted: the deletion must survive, or a and a/b are both live"""
+    par, kid, kid2 = rng.choice([("a", "a/b", "a/c"), ("b", "b/c", "b/d"), ("a/b", "a/b/c", "a/b/d")])
+    g = S.HistGen(rng, [par, kid, kid2, "ab", "a-b"], cfg=S.rand_cfg(rng), logs=False)
+    g.steps.append({"op": "open", "h": 1})
+    val = lambda: ["v", rng.choice(S.OIDS), ""]
+    g.add(part={"refs": [{"n": n, "v": val()} for n in sorted({par, "ab"})], "logs": []})
+    for t in range(rng.randint(0, 2)):
+        g.add(part={"refs": [{"n": par, "v": val()}], "logs": []})
+    g.add(part={"refs": [{"n": n, "v": v} for n, v in sorted([(par, ["d", "", ""]), (kid, val())])], "logs": []})
+    g.steps.append({"op": "view", "h": 1, "tag": "C12", "hasraw": False})
+    if rng.random() < 0.5:
+        g.add(part={"refs": [{"n": "a-b", "v": val()}], "logs": []})
+    g.steps.append({"op": "compact", "h": 1, "first": 1, "last": g.ntab - 1})
+    g.steps.append({"op": "view", "h": 1, "tag": "C12", "hasraw": False})
+    g.add(part={"refs": [{"n": kid2, "v": val()}], "logs": []})          # legal: must be accepted
+    g.steps.append({"op": "view", "h": 1, "tag": "C12", "hasraw": False})
+    g.add(part={"refs": [{"n": par, "v": val()}], "logs": []})           # illegal now: must be refused
+    g.steps.append({"op": "view", "h": 1, "tag": "C12", "hasraw": False})
+    return g.history("c12-%d" % i)
+
+
 def gen_c12(rng, i):
+    if i % 11 == 5:
+        return gen_c12_revive(rng, i)
     names = rng.sample(S.NAMES_CONFLICT, rng.randint(3, 8))
     cfg = S.rand_cfg(rng)
     g = S.HistGen(rng, names, cfg=cfg, logs=False)
@@ -211,6 +236,11 @@ def gen_c12(rng, i):
             if rng.random() < 0.5:
                 g.steps[-1]["parts"].append(g.part())
         g.steps.append({"op": "view", "h": 1, "tag": "C12", "hasraw": False})
+        if i % 3 == 0 and rng.random() < 0.4 and t >= 1:
+            # compactions between the transactions (ranges above the bottom table keep their tombstones): the live set is the same afterwards
+            f = rng.randint(0, max(0, t - 1))
+            g.steps.append({"op": "compact", "h": 1, "first": f, "last": f + rng.randint(1, 2)} if rng.random() < 0.75 else {"op": "compact", "h": 1, "all": True})
+            g.steps.append({"op": "view", "h": 1, "tag": "C12", "hasraw": False})
     return g.history("c12-%d" % i)
 
 
